@@ -224,7 +224,52 @@ func recoverCovers(fn *ssa.Function, call ssa.Instruction) (bool, string) {
 	}
 	mc, ok := def.Call.Value.(*ssa.MakeClosure)
 	if !ok {
-		return false, "the deferred call is not a function literal"
+		// a named function deferred directly with the address of the error result:
+		// defer recoverAsError(&err) — recover() works only when called by the deferred function itself
+		g := def.Call.StaticCallee()
+		if g == nil || len(g.Blocks) == 0 {
+			return false, "the deferred call is neither a function literal nor a module function"
+		}
+		var errCell *ssa.Alloc
+		pidx := -1
+		for i, a := range def.Call.Args {
+			if al, isAlloc := a.(*ssa.Alloc); isAlloc && types.Identical(derefType(al.Type()), types.Universe.Lookup("error").Type()) {
+				errCell, pidx = al, i
+			}
+		}
+		if errCell == nil || pidx >= len(g.Params) {
+			return false, "the deferred function is not handed the address of the error result"
+		}
+		var recVal ssa.Value
+		allInstrs(g, func(in ssa.Instruction) {
+			if isBuiltinCall(in, "recover") {
+				recVal, _ = in.(ssa.Value)
+			}
+		})
+		if recVal == nil {
+			return false, "the deferred function does not call recover() itself"
+		}
+		assigns := false
+		allInstrs(g, func(in ssa.Instruction) {
+			if st, isSt := in.(*ssa.Store); isSt && st.Addr == ssa.Value(g.Params[pidx]) && nilTestedValue(recVal, st) {
+				assigns = true
+			}
+		})
+		if !assigns {
+			return false, "the deferred function does not store an error through the pointer under recover() != nil"
+		}
+		returnsCell := false
+		allInstrs(fn, func(in ssa.Instruction) {
+			if ret, ok := in.(*ssa.Return); ok && len(ret.Results) > 0 {
+				if u, ok := ret.Results[len(ret.Results)-1].(*ssa.UnOp); ok && u.X == ssa.Value(errCell) {
+					returnsCell = true
+				}
+			}
+		})
+		if !returnsCell {
+			return false, "the variable handed to the deferred function is not the function's named error result"
+		}
+		return true, "deferred recovering function registered before any call; it stores the recovered panic into the named error result"
 	}
 	cf := mc.Fn.(*ssa.Function)
 	recovers, assigns := false, false
